@@ -1,5 +1,7 @@
 """C16 - fatal-error discipline (DESIGN 2, C16).  Analysed in both preprocessor
 configurations: the configured one and -DMASA_EXCEPTIONS."""
+import json
+import os
 from .. import ir, terms, api
 from .. import catalogue as cat
 from ..ast import strip, flat_stmts, calls, nodes, is_param, show
@@ -139,18 +141,22 @@ def check_config(ctx, prog, cfg):
                        nontrivial=False)
             # solution objects other than the selected one
             foreign = []
+            own_map = ptr[:-len('_master_pointer')] + '_master_map'
             for o in paths:
+                facts = list(o.conds)
                 for e in api.flat(o.events):
+                    if e[0] == 'cond':
+                        facts.append(e[1])
                     if e[0] == 'call' and len(e[1]) > 2 and e[1][0].startswith(cat.BASE % scalar + '::') and e[1][2] is not None and e[1][2] != ('sym', ptr + '*'):
-                        if not (e[1][2][0] == 'sym' and e[1][2][1].startswith('this:')):
+                        if not (e[1][2][0] == 'sym' and e[1][2][1].startswith('this:')) and not registered_or_local(e[1][2], facts, own_map):
                             foreign.append((e[1][0].split('::')[-1], terms.fmt(e[1][2])[:50], e[2]))
-            if f.n in SOLUTION_INDEPENDENT:
+            if f.n in SOLUTION_INDEPENDENT or not (used or foreign or f.n in DEPENDENT_TODAY):
                 continue
             n_dep += 1
-            ok = used and not foreign
+            ok = not foreign and (used or f.n not in DEPENDENT_TODAY)
             ctx.ob('C16.R3', K('%s|%s' % (f.n, f.sig)), ok, f.where,
-                   ('%s calls %s on `%s` at %s, not on the selected solution' % ((f.n,) + foreign[0])) if foreign else
-                   '%s is not in the solution-independent list yet never reaches the selected solution of the %s registry' % (f.n, scalar),
+                   ('%s calls %s on `%s` at %s: neither the selected solution, nor one found in its own registry, nor one it has just allocated' % ((f.n,) + foreign[0])) if foreign else
+                   '%s no longer reaches the selected solution of the %s registry: before masa_init it used to end in masa_exit (tables/c16_solution_dependent.json), now it returns' % (f.n, scalar),
                    sample='%s -> selected solution' % f.n)
         ctx.floor(K('solution_dependent_api|' + sc), n_dep, 100)
         ctx.floor(K('guarded_entry_points|' + sc), n_guard, 100)
@@ -190,10 +196,31 @@ def check_config(ctx, prog, cfg):
             # the successful paths must not reach masa_exit afterwards, trivially true by path split
 
 
+DEPENDENT_TODAY = set(json.load(open(os.path.join(os.path.dirname(os.path.dirname(os.path.dirname(os.path.abspath(__file__)))), 'tables', 'c16_solution_dependent.json')))['names'])
+
+
+def registered_or_local(obj, facts, own_map):
+    """obj designates a solution object that is known to exist: the mapped value of an iterator of the entry point's own
+    registry map (find(k) on a path that has established that k is registered, or the iterator of a begin()..end() traversal),
+    or an object the entry point has allocated itself (no global or static storage in the term)"""
+    from ..ownership import lookup_fact
+    t = obj
+    if t[0] == 'field' and t[2] == 'second' and t[1][0] == 'call' and t[1][1] in ('op:operator*', 'op:operator->') and len(t[1][2]) == 1:
+        it = t[1][2][0]
+        if it[0] == 'call' and it[1] == 'loopvar':
+            it0 = it[2][0]
+            return it0[0] == 'mcall' and it0[1] == ('sym', own_map) and it0[2] in ('begin', 'cbegin')
+        if it[0] == 'mcall' and it[1] == ('sym', own_map) and it[2] == 'find' and len(it[3]) == 1:
+            return any(lf is not None and lf[0] == it[3][0] and lf[1] is True for lf in (lookup_fact(c, own_map) for c in facts))
+        return False
+    syms_ = [x[1] for x in terms.subterms(t) if x[0] == 'sym']
+    return not any(x.startswith(('global:', 'static:')) for x in syms_) and any(x[0] == 'new' for x in terms.subterms(t))
+
+
 def run(ctx, prog):
     ctx.rule('C16.R1', '_master_pointer is a private member of the registry class (who may write it is C12.H1)')
     ctx.rule('C16.R2', 'with callees inlined, on every path of every entry point the test _master_pointer != 0 precedes the first use of the selected solution, and the null branch ends in masa_exit')
-    ctx.rule('C16.R3', 'every MASA:: entry point that is not in the solution-independent list reaches the selected solution of its own registry, and no other solution object')
+    ctx.rule('C16.R3', 'the only solution objects an entry point calls into are the selected solution of its own registry, objects found in that registry (iterator checked against end(), or a whole-map traversal) and objects it has just allocated; every entry point that reaches the selected solution on the pinned tree (tables/c16_solution_dependent.json) still does')
     ctx.rule('C16.R4', "masa_exit never returns: every path ends in exit(ex) (throw ex of type int in the exception build) with ex the unmodified parameter; every call site passes the literal 1; "
              "on each misuse path a literal containing 'MASA FATAL ERROR' is printed before the call")
     ctx.rule('C16.R5', 'on every path of verify_pointer_sanity / select_mms / init_mms that ends in masa_exit, no store to _master_pointer or _master_map precedes the call')
